@@ -321,6 +321,7 @@ PRIORS = {
     "one": [(5, 51)],
     "two": [(5, 51), (7, 71)],
     "same-iteration": [(5, 51), (6, 61)],  # then iteration 6 is saved again
+    "restarted-lower": [(30, 301), (4, 41)],  # a run restarted from scratch in a directory that still holds an older run
 }
 
 
@@ -431,7 +432,7 @@ def _resume_run(root, N, j, how, opt):
     if how == "clean":
         a = H.train(d, grads, batches, j + 1, lr=0.5, opt=opt, sched=_sched, seen=s1, lazy_batches=True)
     else:
-        a = H.train(d, grads, batches, N, lr=0.5, opt=opt, sched=_sched, seen=s1, kill_at=j, lazy_batches=True, kill_kind="runtime" if how == "runtime" else "kill")
+        a = H.train(d, grads, batches, N, lr=0.5, opt=opt, sched=_sched, seen=s1, kill_at=j, lazy_batches=True, kill_kind={"runtime": "runtime", "stepkill": "kill-in-step"}.get(how, "kill"), checkpoint_steps=3 if how == "stepkill" else 10**9)
     b = H.train(d, grads, batches, N, lr=0.5, opt=opt, sched=_sched, seen=s2, resume=True, lazy_batches=True)
     shutil.rmtree(d)
     return {"full": full, "first": a, "resumed": b, "seen_first": [x[0] for x in s1], "seen_resumed": [x[0] for x in s2], "seen_full": [x[0] for x in full_seen]}
@@ -517,9 +518,18 @@ def oracles(ctx, deep):
                 res.append((c, _resume_run(root, *c)))
             except Exception as e:  # noqa
                 res.append((c, None))
+    # an interrupt that arrives outside the forward / backward pass (while the optimiser step completes): whatever is
+    # written then must still label the state it holds
+    res = list(res)
+    for (N, j) in [(12, 7), (12, 4), (10, 8)] + [(ctx.rng.randint(8, 16), ctx.rng.randint(1, 7)) for _ in range(ctx.n(2, 12))]:
+        c = (N, min(j, N - 2), "stepkill", "sgd")
+        try:
+            res.append((c, _resume_run(root, *c)))
+        except Exception as e:  # noqa
+            res.append((c, None))
     for (N, j, how, opt), r in sorted(res, key=lambda t: (t[0][0], t[0][1])):
         runs += 1
-        call = "train %d iterations (%s, WarmupMultiStepLR), %s iteration %d, resume" % (N, opt, {"clean": "stop cleanly after", "kill": "kill signal during", "runtime": "RuntimeError raised inside"}[how], j)
+        call = "train %d iterations (%s, WarmupMultiStepLR), %s iteration %d, resume" % (N, opt, {"clean": "stop cleanly after", "kill": "kill signal during", "runtime": "RuntimeError raised inside", "stepkill": "kill signal during the optimiser step of"}[how], j)
         if r is None:
             add(Violation("resume-runs", "%s: raises" % call, {"call": call}, {"kind": "raises"}))
             continue
